@@ -2,7 +2,7 @@
    cfg / marshal / parse are arbitrary (universally quantified): nothing is
    assumed about protobuf.  rename(2) atomicity is the semantics of the
    Rename step in Model.pstep (trusted base). *)
-From CJ Require Import Common.Base C20.Model C20.Proofs C20.Proofs2 C20.Proofs3 C20.Proofs4.
+From CJ Require Import Common.Base C20.Model C20.Model2 C20.Proofs C20.Proofs2 C20.Proofs3 C20.Proofs4 C20.Proofs5.
 
 (* For every sequence of API calls (pend w0), every event list evs (process
    steps under arbitrary faults interleaved with the directory vanishing or
@@ -177,3 +177,26 @@ Theorem C20_temp_files_accounted :
           lookup (cwd w1, Tmp r) (files w) = None)).
 Proof. exact temp_files_accounted. Qed.
 Print Assumptions C20_temp_files_accounted.
+
+(* Two client processes sharing the file system (and possibly one assets
+   directory), any interleaving of their atomic steps, any faults, any crash
+   point of either or both, any interference of the environment.  Under the one
+   assumption that a process never draws the temporary name the other one
+   currently holds (safe_run; the names carry 5 random characters): the
+   ClientConf of every directory is its initial content, or absent after a
+   removal, or the COMPLETE marshalling of a configuration one of the two
+   processes was storing earlier -- never a mixture, never a truncation.
+   Examples.collision_breaks_atomicity shows the assumption is necessary. *)
+Theorem C20_two_writers_never_partial :
+  forall (cfg : Type) (marshal : cfg -> option bytes) (parse : bytes -> option cfg)
+         (w0 : world2 cfg) (evs : list event2) (d : dir),
+    q_pc (pa w0) = Idle -> q_pc (pb w0) = Idle ->
+    safe_run cfg marshal parse evs w0 = true ->
+    target2 (run2 cfg marshal parse evs w0) d = target2 w0 d \/
+    (target2 (run2 cfg marshal parse evs w0) d = None /\ removed2 d evs = true) \/
+    (exists evs1 evs2 who b,
+        evs = evs1 ++ evs2 /\
+        marshal (q_mem (proc_of (run2 cfg marshal parse evs1 w0) who)) = Some b /\
+        target2 (run2 cfg marshal parse evs w0) d = Some b).
+Proof. exact two_writers_never_partial. Qed.
+Print Assumptions C20_two_writers_never_partial.
